@@ -88,6 +88,16 @@ func (e *regEnv) registry(ctx context.Context) (sop.Registry, func(), error) {
 	return r, func() { r.Close() }, nil
 }
 
+// registryRO is what reader and no-check transactions use: the segment files are opened read-only.
+func (e *regEnv) registryRO(ctx context.Context) (sop.Registry, func(), error) {
+	rt, err := sopfs.NewReplicationTracker(ctx, []string{e.folder}, false, e.w.Proxy)
+	if err != nil {
+		return nil, nil, err
+	}
+	r := sopfs.NewRegistry(false, e.c.Mod, rt, e.w.Proxy)
+	return r, func() { r.Close() }, nil
+}
+
 func (e *regEnv) payloadH(hs []sop.Handle) []sop.RegistryPayload[sop.Handle] {
 	return []sop.RegistryPayload[sop.Handle]{{RegistryTable: e.table, IDs: hs}}
 }
